@@ -122,6 +122,10 @@ pub fn heap_check_live(addr: usize) {
     }
 }
 
+pub fn heap_is_live(addr: usize) -> bool {
+    HEAP.with(|h| h.borrow().boxes.get(&addr).copied().unwrap_or(false))
+}
+
 /// (allocated, freed, addresses still alive)
 pub fn heap_stats() -> (u64, u64, Vec<usize>) {
     HEAP.with(|h| {
@@ -166,6 +170,10 @@ pub fn gc_run_done(roots: &[&[Object]], before: &[usize], survivors: &[Object]) 
             return;
         }
         reach.push(raw);
+        // a dangling element (its owner broke the collector's contract) is not followed
+        if !heap_is_live(raw & !7usize) {
+            return;
+        }
         if o.tag() == crate::object::Type::Array {
             for v in o.as_vec().iter() {
                 walk(*v, reach);
